@@ -15,9 +15,18 @@
 package table
 
 import (
+	"encoding/binary"
+	"errors"
+
 	"github.com/RoaringBitmap/roaring/roaring64"
 	"github.com/vmihailenco/msgpack/v5"
 )
+
+// ErrMalformedPack means that the decoded data does not describe a table.
+var ErrMalformedPack = errors.New("malformed table pack")
+
+// maxPackAllocation is the largest table Decode allocates: the length of a value is kept in four bytes.
+const maxPackAllocation = uint64(1) << 32
 
 type Pack struct {
 	Offset      uint64
@@ -65,6 +74,12 @@ func Decode(data []byte) (*Table, error) {
 		return nil, err
 	}
 
+	// The pack comes from the network. Check that it describes a table before
+	// building one from it: the readers of a table trust its index.
+	if err = p.validate(); err != nil {
+		return nil, err
+	}
+
 	t := New(p.Allocated)
 	t.offset = p.Offset
 	t.inuse = p.Inuse
@@ -77,4 +92,25 @@ func Decode(data []byte) (*Table, error) {
 	copy(t.memory[:t.offset], p.Memory)
 
 	return t, nil
+}
+
+func (p *Pack) validate() error {
+	if p.Allocated > maxPackAllocation || p.Offset > p.Allocated || uint64(len(p.Memory)) != p.Offset {
+		return ErrMalformedPack
+	}
+	for _, offset := range p.HKeys {
+		// KEY-LENGTH(uint8) | KEY(bytes) | TTL(uint64) | TIMESTAMP(uint64) | LASTACCESS(uint64) | VALUE-LENGTH(uint32) | VALUE(bytes)
+		if offset >= p.Offset {
+			return ErrMalformedPack
+		}
+		end := offset + 1 + uint64(p.Memory[offset]) + 24
+		if end+4 > p.Offset {
+			return ErrMalformedPack
+		}
+		end += 4 + uint64(binary.BigEndian.Uint32(p.Memory[end:end+4]))
+		if end > p.Offset {
+			return ErrMalformedPack
+		}
+	}
+	return nil
 }
